@@ -163,24 +163,32 @@ theorem length_retainLoop (now thr : Nat) (afp : Option Nat) :
     · simp only [List.length_cons]; exact Nat.succ_le_succ (ih _ _)
     · exact Nat.le_succ_of_le (ih _ _)
 
-theorem AllP_set {P : Path → Prop} {l : List Path} (i : Nat) {a : Path} (h : AllP P l) (ha : P a) :
-    AllP P (l.set i a) := by
-  intro x hx
-  rcases List.mem_or_eq_of_mem_set hx with h' | h'
-  · exact h x h'
-  · exact h' ▸ ha
-
-theorem AllP_swapFront {P : Path → Prop} {l : List Path} (idx : Nat) (h : AllP P l) :
-    AllP P (swapFront l idx) := by
+theorem swapFront_perm (l : List Path) (idx : Nat) : (swapFront l idx).Perm l := by
   unfold swapFront
   split
-  · next a b ha hb =>
-    exact AllP_set _ (AllP_set _ h (h b (List.mem_of_getElem? hb))) (h a (List.mem_of_getElem? ha))
-  · exact h
+  · exact List.Perm.refl _
+  · exact List.Perm.refl _
+  · next a t i =>
+    split
+    · next b hb =>
+      have ht : t = t.take i ++ b :: t.drop (i + 1) := by
+        have hi : i < t.length := (List.getElem?_eq_some_iff.mp hb).1
+        have hb' : t[i] = b := (List.getElem?_eq_some_iff.mp hb).2
+        rw [← hb', List.getElem_cons_drop, List.take_append_drop]
+      -- b :: (take ++ a :: drop) ~ a :: (take ++ b :: drop) = a :: t
+      have h1 : (b :: (t.take i ++ a :: t.drop (i + 1))).Perm (b :: a :: (t.take i ++ t.drop (i + 1))) :=
+        List.Perm.cons _ List.perm_middle
+      have h2 : (a :: t).Perm (a :: b :: (t.take i ++ t.drop (i + 1))) := by
+        conv => lhs; rw [ht]
+        exact List.Perm.cons _ List.perm_middle
+      exact h1.trans ((List.Perm.swap a b _).trans h2.symm)
+    · exact List.Perm.refl _
 
-theorem length_swapFront (l : List Path) (idx : Nat) : (swapFront l idx).length = l.length := by
-  unfold swapFront
-  split <;> simp
+theorem AllP_swapFront {P : Path → Prop} {l : List Path} (idx : Nat) (h : AllP P l) :
+    AllP P (swapFront l idx) := fun x hx => h x ((swapFront_perm l idx).mem_iff.mp hx)
+
+theorem length_swapFront (l : List Path) (idx : Nat) : (swapFront l idx).length = l.length :=
+  (swapFront_perm l idx).length_eq
 
 theorem mergeTake_P {P : Path → Prop} (sc : Nat → Int) :
     ∀ (b : Nat) (ex nw : List Path), AllP P ex → AllP P nw →
@@ -286,15 +294,16 @@ theorem updateCache_P {P : Path → Prop} (env : Env) (s : St) (fetched : List P
 theorem bestPath_mem {cached : List Path} {now thr : Nat} {b : Path}
     (h : bestPath cached now thr = some b) : b ∈ cached := List.mem_of_find?_eq_some h
 
+theorem decideActive_best (env : Env) (s : St) (now : Nat) (sc : Nat → Int) :
+    (decideActive env s now sc).2.1 = bestPath s.cached now env.cfg.minExpiryThreshold := by
+  unfold decideActive
+  simp only
+  split <;> rfl
+
 theorem decideActive_best_mem (env : Env) (s : St) (now : Nat) (sc : Nat → Int) {b : Path}
     (h : (decideActive env s now sc).2.1 = some b) : b ∈ s.cached := by
-  unfold decideActive at h
-  simp only at h
-  split at h
-  · split at h
-    · split at h <;> exact bestPath_mem h
-    · exact bestPath_mem h
-  · exact bestPath_mem h
+  rw [decideActive_best] at h
+  exact bestPath_mem h
 
 theorem applyDecision_P {P : Path → Prop} (s : St) (d : Decision) (best : Option Path)
     (hs : Inv P s) (hb : OptP P best) : Inv P (applyDecision s d best) := by
@@ -344,20 +353,18 @@ theorem fetchFiltered_ok {env : Env} {now : Nat} {resp : Resp} {f : List Path}
 
 theorem fetchAndUpdate_P {P : Path → Prop} (env : Env) (s : St) (now : Nat) (resp : Resp)
     (sc0 sc1 : Nat → Int) (ord : List Nat) (backoff : Nat) (hs : Inv P s)
-    (hf : ∀ p ∈ resp.paths, env.allowed p = true → P p) :
+    (hf : ∀ f, fetchFiltered env now resp = .ok f → AllP P f) :
     Inv P (fetchAndUpdate env s now resp sc0 sc1 ord backoff) := by
   unfold fetchAndUpdate
   simp only
   split
   · next f hok =>
-    have hfP : AllP P f := fun p hp => hf p (fetchFiltered_ok hok p hp).1 (fetchFiltered_ok hok p hp).2.1
-    have hu := updateCache_P (P := P) env { s with delivered := s.delivered ++ resp.paths } f now sc1 ord hs hfP
+    have hu := updateCache_P (P := P) env (noteDelivered s resp) f now sc1 ord hs (hf f hok)
     split
     · exact hu
-    · exact reevaluate_P env _ now _ hu
-  · have hu := updateCache_P (P := P) env { s with delivered := s.delivered ++ resp.paths } [] now sc1 ord hs
-      (AllP_nil P)
-    exact reevaluate_P env _ now _ hu
+    · exact reevaluate_P env (afterOk env.cfg _ now _) now _ hu
+  · have hu := updateCache_P (P := P) env (noteDelivered s resp) [] now sc1 ord hs (AllP_nil P)
+    exact reevaluate_P env (afterErr env.cfg _ s.failed now backoff _) now _ hu
 
 theorem idleCheck_P {P : Path → Prop} (env : Env) (s : St) (now : Nat) (hs : Inv P s) :
     Inv P (idleCheck env s now).1 := by
@@ -365,7 +372,7 @@ theorem idleCheck_P {P : Path → Prop} (env : Env) (s : St) (now : Nat) (hs : I
 
 theorem refetchIfDue_P {P : Path → Prop} (env : Env) (s : St) (now : Nat) (resp : Resp)
     (sc0 sc1 : Nat → Int) (ord : List Nat) (backoff : Nat) (hs : Inv P s)
-    (hf : ∀ p ∈ resp.paths, env.allowed p = true → P p) :
+    (hf : ∀ f, fetchFiltered env now resp = .ok f → AllP P f) :
     Inv P (refetchIfDue env s now resp sc0 sc1 ord backoff) := by
   unfold refetchIfDue
   split
@@ -374,7 +381,7 @@ theorem refetchIfDue_P {P : Path → Prop} (env : Env) (s : St) (now : Nat) (res
 
 theorem maintain_P {P : Path → Prop} (env : Env) (s : St) (now : Nat) (resp : Resp)
     (sc0 sc1 : Nat → Int) (ord : List Nat) (backoff : Nat) (hs : Inv P s)
-    (hf : ∀ p ∈ resp.paths, env.allowed p = true → P p) :
+    (hf : ∀ f, fetchFiltered env now resp = .ok f → AllP P f) :
     Inv P (maintain env s now resp sc0 sc1 ord backoff) := by
   unfold maintain
   split
@@ -402,10 +409,17 @@ theorem report_P {P : Path → Prop} (env : Env) (s : St) (k : Kind) (id ts : Na
   · exact hs
   · exact hs
 
-/-- what one operation must guarantee about the paths its fetcher answer contains -/
+/-- what one operation must guarantee about the paths that survive its fetch filter (policy, not expired) -/
 def Op.fetchOK (P : Path → Prop) (env : Env) : Op → Prop
-  | .maintain _ resp _ _ _ _ => ∀ p ∈ resp.paths, env.allowed p = true → P p
+  | .maintain now resp _ _ _ _ => ∀ f, fetchFiltered env now resp = .ok f → AllP P f
   | _ => True
+
+/-- sufficient: every policy-conforming path of the fetcher answer satisfies `P` -/
+theorem Op.fetchOK_of_allowed {P : Path → Prop} {env : Env} {now : Nat} {resp : Resp}
+    {sc0 sc1 : Nat → Int} {ord : List Nat} {b : Nat}
+    (h : ∀ p ∈ resp.paths, env.allowed p = true → P p) :
+    (Op.maintain now resp sc0 sc1 ord b).fetchOK P env :=
+  fun _ hok p hp => h p (fetchFiltered_ok hok p hp).1 (fetchFiltered_ok hok p hp).2.1
 
 theorem step_P {P : Path → Prop} (env : Env) (s : St) (op : Op) (hs : Inv P s)
     (hf : op.fetchOK P env) : Inv P (step env s op) := by
@@ -435,5 +449,1196 @@ theorem init_P (P : Path → Prop) (env : Env) (t0 : Nat) : Inv P (init env t0) 
 theorem run_P {P : Path → Prop} (env : Env) (t0 : Nat) (ops : List Op)
     (hf : ∀ op ∈ ops, op.fetchOK P env) : Inv P (run env t0 ops) :=
   foldl_P env ops _ (init_P P env t0) hf
+
+end ScionVerif.PathMgr
+
+/-! # C06: sizes, timers -/
+namespace ScionVerif.PathMgr
+open ScionVerif.Generated.PathMgr
+
+theorem applyDecision_cached (s : St) (d : Decision) (b : Option Path) :
+    (applyDecision s d b).cached = s.cached := by
+  unfold applyDecision; simp only; split <;> split <;> rfl
+theorem applyDecision_nextRefetch (s : St) (d : Decision) (b : Option Path) :
+    (applyDecision s d b).nextRefetch = s.nextRefetch := by
+  unfold applyDecision; simp only; split <;> split <;> rfl
+theorem applyDecision_im (s : St) (d : Decision) (b : Option Path) :
+    (applyDecision s d b).im = s.im := by
+  unfold applyDecision; simp only; split <;> split <;> rfl
+
+theorem reevaluate_cached (env : Env) (s : St) (now : Nat) (sc : Nat → Int) :
+    (reevaluate env s now sc).cached = rank sc s.cached := by
+  unfold reevaluate; simp only [applyDecision_cached]
+theorem reevaluate_nextRefetch (env : Env) (s : St) (now : Nat) (sc : Nat → Int) :
+    (reevaluate env s now sc).nextRefetch = s.nextRefetch := by
+  unfold reevaluate; simp only [applyDecision_nextRefetch]
+theorem reevaluate_im (env : Env) (s : St) (now : Nat) (sc : Nat → Int) :
+    (reevaluate env s now sc).im = s.im := by
+  unfold reevaluate; simp only [applyDecision_im]
+
+theorem updateCache_length (env : Env) (s : St) (fetched : List Path) (now : Nat) (sc1 : Nat → Int)
+    (ord : List Nat) (n : Nat) (hn : max env.cfg.maxCached 1 ≤ n) (hs : s.cached.length ≤ n) :
+    (updateCache env s fetched now sc1 ord).1.cached.length ≤ n := by
+  unfold updateCache
+  simp only
+  split
+  · exact Nat.le_trans (length_retainLoop _ _ _ _ _ _) hs
+  · exact Nat.le_trans (length_mergeNew _ _ _ _ _) hn
+
+theorem updateCache_im (env : Env) (s : St) (fetched : List Path) (now : Nat) (sc1 : Nat → Int)
+    (ord : List Nat) : (updateCache env s fetched now sc1 ord).1.im = s.im := by
+  unfold updateCache; simp only; split <;> rfl
+
+theorem fetchAndUpdate_length (env : Env) (s : St) (now : Nat) (resp : Resp) (sc0 sc1 : Nat → Int)
+    (ord : List Nat) (b : Nat) (n : Nat) (hn : max env.cfg.maxCached 1 ≤ n) (hs : s.cached.length ≤ n) :
+    (fetchAndUpdate env s now resp sc0 sc1 ord b).cached.length ≤ n := by
+  unfold fetchAndUpdate
+  simp only
+  split
+  · next f _ =>
+    have hu := updateCache_length env (noteDelivered s resp) f now sc1 ord n hn hs
+    split
+    · exact hu
+    · simp only [markInit, reevaluate_cached, length_rank, afterOk]; exact hu
+  · have hu := updateCache_length env (noteDelivered s resp) [] now sc1 ord n hn hs
+    simp only [markInit, reevaluate_cached, length_rank, afterErr]; exact hu
+
+theorem fetchAndUpdate_im (env : Env) (s : St) (now : Nat) (resp : Resp) (sc0 sc1 : Nat → Int)
+    (ord : List Nat) (b : Nat) : (fetchAndUpdate env s now resp sc0 sc1 ord b).im = s.im := by
+  unfold fetchAndUpdate
+  simp only
+  split
+  · split
+    · simp only [updateCache_im, noteDelivered]
+    · simp only [markInit, reevaluate_im, afterOk, updateCache_im, noteDelivered]
+  · simp only [markInit, reevaluate_im, afterErr, updateCache_im, noteDelivered]
+
+theorem idleCheck_cached (env : Env) (s : St) (now : Nat) : (idleCheck env s now).1.cached = s.cached := by
+  unfold idleCheck; split <;> rfl
+theorem idleCheck_im (env : Env) (s : St) (now : Nat) : (idleCheck env s now).1.im = s.im := by
+  unfold idleCheck; split <;> rfl
+
+theorem maintain_length (env : Env) (s : St) (now : Nat) (resp : Resp) (sc0 sc1 : Nat → Int)
+    (ord : List Nat) (b : Nat) (n : Nat) (hn : max env.cfg.maxCached 1 ≤ n) (hs : s.cached.length ≤ n) :
+    (maintain env s now resp sc0 sc1 ord b).cached.length ≤ n := by
+  unfold maintain refetchIfDue
+  split
+  · split
+    · simp only [idleCheck_cached]; exact hs
+    · split
+      · exact fetchAndUpdate_length env _ now resp sc0 sc1 ord b n hn (by rw [idleCheck_cached]; exact hs)
+      · rw [idleCheck_cached]; exact hs
+  · split
+    · exact fetchAndUpdate_length env s now resp sc0 sc1 ord b n hn hs
+    · exact hs
+
+theorem maintain_im (env : Env) (s : St) (now : Nat) (resp : Resp) (sc0 sc1 : Nat → Int)
+    (ord : List Nat) (b : Nat) : (maintain env s now resp sc0 sc1 ord b).im = s.im := by
+  unfold maintain refetchIfDue
+  split
+  · split
+    · simp only [idleCheck_im]
+    · split
+      · rw [fetchAndUpdate_im, idleCheck_im]
+      · rw [idleCheck_im]
+  · split
+    · rw [fetchAndUpdate_im]
+    · rfl
+
+theorem deliver_cached_length (env : Env) (s : St) (now : Nat) (sc : Nat → Int) :
+    (deliver env s now sc).cached.length = s.cached.length := by
+  unfold deliver
+  split
+  · rfl
+  · split
+    · rfl
+    · simp only
+      split
+      · simp only [reevaluate_cached, length_rank]
+      · rfl
+
+theorem deliver_im (env : Env) (s : St) (now : Nat) (sc : Nat → Int) : (deliver env s now sc).im = s.im := by
+  unfold deliver
+  split
+  · rfl
+  · split
+    · rfl
+    · simp only
+      split
+      · simp only [reevaluate_im]
+      · rfl
+
+theorem report_cached (env : Env) (s : St) (k : Kind) (id ts : Nat) :
+    (report env s k id ts).cached = s.cached := by
+  unfold report; split <;> rfl
+
+theorem step_length (env : Env) (s : St) (op : Op) (n : Nat) (hn : max env.cfg.maxCached 1 ≤ n)
+    (hs : s.cached.length ≤ n) : (step env s op).cached.length ≤ n := by
+  unfold step
+  split
+  · exact hs
+  · cases op with
+    | maintain now resp sc0 sc1 ord b => exact maintain_length env s now resp sc0 sc1 ord b n hn hs
+    | report k id ts => simp only [report_cached]; exact hs
+    | deliver now sc => simp only [deliver_cached_length]; exact hs
+    | send now => exact hs
+
+theorem run_length (env : Env) (t0 : Nat) (ops : List Op) :
+    (run env t0 ops).cached.length ≤ max env.cfg.maxCached 1 := by
+  unfold run
+  have : ∀ (s : St), s.cached.length ≤ max env.cfg.maxCached 1 →
+      (ops.foldl (step env) s).cached.length ≤ max env.cfg.maxCached 1 := by
+    induction ops with
+    | nil => intro s hs; exact hs
+    | cons op ops ih => intro s hs; exact ih _ (step_length env s op _ (Nat.le_refl _) hs)
+  exact this _ (by simp [init])
+
+/-! ## refetch window -/
+
+theorem nextAfterOk_bounds (cfg : Cfg) (now ee : Nat) :
+    now + cfg.minRefetchDelay ≤ nextAfterOk cfg now ee ∧
+    nextAfterOk cfg now ee ≤ now + max cfg.refetchInterval cfg.minRefetchDelay := by
+  unfold nextAfterOk
+  omega
+
+theorem fetchAndUpdate_window (env : Env) (s : St) (now : Nat) (resp : Resp) (sc0 sc1 : Nat → Int)
+    (ord : List Nat) (b : Nat) :
+    (fetchAndUpdate env s now resp sc0 sc1 ord b).bad = true ∨
+    (now + env.cfg.minRefetchDelay ≤ (fetchAndUpdate env s now resp sc0 sc1 ord b).nextRefetch ∧
+     (fetchAndUpdate env s now resp sc0 sc1 ord b).nextRefetch ≤
+       now + max env.cfg.refetchInterval (max b env.cfg.minRefetchDelay)) := by
+  unfold fetchAndUpdate
+  simp only
+  split
+  · split
+    · exact Or.inl rfl
+    · next ee _ =>
+      refine Or.inr ?_
+      simp only [markInit, reevaluate_nextRefetch, afterOk]
+      have := nextAfterOk_bounds env.cfg now ee
+      omega
+  · refine Or.inr ?_
+    simp only [markInit, reevaluate_nextRefetch, afterErr, failDelay]
+    omega
+
+end ScionVerif.PathMgr
+
+/-! # C06: the issue memory (`PathIssueManager`) -/
+namespace ScionVerif.PathMgr
+open ScionVerif.Generated.PathMgr
+
+/-- keys of the issue cache are distinct and every cached issue has its live FIFO entry -/
+structure IMInv (m : IssueMgr) : Prop where
+  nodup : (m.cache.map (·.1)).Nodup
+  live : ∀ e ∈ m.cache, (e.1, e.2.ts) ∈ m.fifo
+
+theorem find_key_unique {c : List (Nat × Marker)} (hn : (c.map (·.1)).Nodup) {id : Nat} {ex mk : Marker}
+    (hf : (c.find? (·.1 == id)).map (·.2) = some ex) (hm : (id, mk) ∈ c) : mk = ex := by
+  induction c with
+  | nil => cases hm
+  | cons a l ih =>
+    simp only [List.map_cons, List.nodup_cons] at hn
+    simp only [List.find?_cons] at hf
+    cases hm with
+    | head =>
+      simp at hf
+      exact hf
+    | tail _ hm' =>
+      split at hf
+      · next heq =>
+        have : a.1 = id := by simpa using heq
+        exact absurd (List.mem_map.mpr ⟨(id, mk), hm', rfl⟩) (this ▸ hn.1)
+      · exact ih hn.2 hf hm'
+
+theorem find_none_no_key {c : List (Nat × Marker)} {id : Nat}
+    (hf : (c.find? (·.1 == id)).map (·.2) = none) (mk : Marker) : (id, mk) ∉ c := by
+  intro hm
+  have : c.find? (·.1 == id) = none := by
+    cases h : c.find? (·.1 == id) with
+    | none => rfl
+    | some x => rw [h] at hf; cases hf
+  have := List.find?_eq_none.mp this (id, mk) hm
+  simp at this
+
+theorem nodup_filter_keys {c : List (Nat × Marker)} (f : Nat × Marker → Bool)
+    (hn : (c.map (·.1)).Nodup) : ((c.filter f).map (·.1)).Nodup := by
+  induction c with
+  | nil => simp
+  | cons a l ih =>
+    simp only [List.map_cons, List.nodup_cons] at hn
+    simp only [List.filter_cons]
+    split
+    · simp only [List.map_cons, List.nodup_cons]
+      refine ⟨?_, ih hn.2⟩
+      intro h
+      rcases List.mem_map.mp h with ⟨x, hx, hx1⟩
+      exact hn.1 (List.mem_map.mpr ⟨x, (List.mem_filter.mp hx).1, hx1⟩)
+    · exact ih hn.2
+
+/-- the eviction loop keeps the invariant, never grows the cache, and frees a slot whenever there is
+    something to evict -/
+theorem popLoop_spec (cache : List (Nat × Marker)) (hn : (cache.map (·.1)).Nodup) :
+    ∀ (fifo : List (Nat × Nat)), (∀ e ∈ cache, (e.1, e.2.ts) ∈ fifo) →
+      ((popLoop cache fifo).2.map (·.1)).Nodup ∧
+      (∀ e ∈ (popLoop cache fifo).2, (e.1, e.2.ts) ∈ (popLoop cache fifo).1) ∧
+      (popLoop cache fifo).2.length ≤ cache.length ∧
+      (cache ≠ [] → (popLoop cache fifo).2.length + 1 ≤ cache.length) ∧
+      (popLoop cache fifo).1.length ≤ fifo.length := by
+  intro fifo
+  induction fifo with
+  | nil =>
+    intro hl
+    refine ⟨hn, ?_, Nat.le_refl _, ?_, Nat.le_refl _⟩
+    · intro e he; exact absurd (hl e he) (by simp)
+    · intro hne
+      cases cache with
+      | nil => exact absurd rfl hne
+      | cons a l => exact absurd (hl a List.mem_cons_self) (by simp)
+  | cons p rest ih =>
+    intro hl
+    obtain ⟨id, ts⟩ := p
+    unfold popLoop
+    split
+    · next ex hf =>
+      split
+      · next hts =>
+        refine ⟨nodup_filter_keys _ hn, ?_, List.length_filter_le _ _, ?_, Nat.le_succ _⟩
+        · intro e he
+          have hm := List.mem_filter.mp he
+          have hne : e.1 ≠ id := by simpa using hm.2
+          have := hl e hm.1
+          cases this with
+          | head => exact absurd rfl hne
+          | tail _ h => exact h
+        · intro _
+          -- the evicted entry is in the cache and is removed by the filter
+          have hmem : ∃ mk, (id, mk) ∈ cache := by
+            cases h : cache.find? (·.1 == id) with
+            | none => rw [h] at hf; cases hf
+            | some x =>
+              have hx := List.mem_of_find?_eq_some h
+              have hk : x.1 = id := by simpa using List.find?_some h
+              exact ⟨x.2, by rw [← hk]; exact hx⟩
+          obtain ⟨mk, hmk⟩ := hmem
+          have hlt : (cache.filter (·.1 != id)).length < cache.length := by
+            apply List.length_filter_lt_length_iff_exists.mpr
+            exact ⟨(id, mk), hmk, by simp⟩
+          show (cache.filter (·.1 != id)).length + 1 ≤ cache.length
+          omega
+      · next hts =>
+        have hl' : ∀ e ∈ cache, (e.1, e.2.ts) ∈ rest := by
+          intro e he
+          have := hl e he
+          cases this with
+          | head =>
+            -- e has key `id` and timestamp `ts`, but the entry with key `id` is `ex` with another timestamp
+            have : e.2 = ex := find_key_unique hn hf (by cases e; exact he)
+            exact absurd (this ▸ rfl) hts
+          | tail _ h => exact h
+        have := ih hl'
+        exact ⟨this.1, this.2.1, this.2.2.1, this.2.2.2.1, Nat.le_succ_of_le this.2.2.2.2⟩
+    · next hf =>
+      have hl' : ∀ e ∈ cache, (e.1, e.2.ts) ∈ rest := by
+        intro e he
+        have := hl e he
+        cases this with
+        | head => exact absurd (by cases e; exact he) (find_none_no_key hf e.2)
+        | tail _ h => exact h
+      have := ih hl'
+      exact ⟨this.1, this.2.1, this.2.2.1, this.2.2.2.1, Nat.le_succ_of_le this.2.2.2.2⟩
+
+theorem cacheInsert_length (c : List (Nat × Marker)) (id : Nat) (mk : Marker) :
+    (cacheInsert c id mk).length ≤ c.length + 1 := by
+  unfold cacheInsert
+  simp only [List.length_cons]
+  exact Nat.succ_le_succ (List.length_filter_le _ _)
+
+theorem evictIfFull_spec (m : IssueMgr) (maxE : Nat) (hm : IMInv m) (hb : m.cache.length ≤ max maxE 1) :
+    IMInv (m.evictIfFull maxE) ∧ (m.evictIfFull maxE).cache.length + 1 ≤ max maxE 1 ∧
+    (m.evictIfFull maxE).fifo.length ≤ m.fifo.length := by
+  unfold IssueMgr.evictIfFull
+  split
+  · next hge =>
+    have sp := popLoop_spec m.cache hm.nodup m.fifo hm.live
+    refine ⟨⟨sp.1, sp.2.1⟩, ?_, sp.2.2.2.2⟩
+    show (popLoop m.cache m.fifo).2.length + 1 ≤ max maxE 1
+    by_cases hne : m.cache = []
+    · have h0 := sp.2.2.1
+      have hz : m.cache.length = 0 := by rw [hne]; rfl
+      omega
+    · have := sp.2.2.2.1 hne
+      omega
+  · next hlt => exact ⟨hm, by omega, Nat.le_refl _⟩
+
+theorem insert_inv (m1 : IssueMgr) (id : Nat) (mk : Marker) (h1 : IMInv m1) : IMInv (m1.insert id mk) := by
+  unfold IssueMgr.insert
+  constructor
+  · simp only [cacheInsert, List.map_cons, List.nodup_cons]
+    refine ⟨?_, nodup_filter_keys _ h1.nodup⟩
+    intro h
+    rcases List.mem_map.mp h with ⟨x, hx, hx1⟩
+    have h2 := (List.mem_filter.mp hx).2
+    have : x.1 ≠ id := by simpa using h2
+    exact this hx1
+  · intro e he
+    simp only [cacheInsert] at he
+    cases he with
+    | head => exact List.mem_append_right _ (by simp)
+    | tail _ h => exact List.mem_append_left _ (h1.live e (List.mem_filter.mp h).1)
+
+theorem addIssue_inv (m : IssueMgr) (maxE win id : Nat) (mk : Marker) (hm : IMInv m)
+    (hb : m.cache.length ≤ max maxE 1) :
+    IMInv (m.addIssue maxE win id mk).1 ∧ (m.addIssue maxE win id mk).1.cache.length ≤ max maxE 1 := by
+  unfold IssueMgr.addIssue
+  split
+  · exact ⟨hm, hb⟩
+  · have he := evictIfFull_spec m maxE hm hb
+    refine ⟨insert_inv _ id mk he.1, ?_⟩
+    have := cacheInsert_length (m.evictIfFull maxE).cache id mk
+    show (cacheInsert (m.evictIfFull maxE).cache id mk).length ≤ max maxE 1
+    omega
+
+theorem report_im_inv (env : Env) (s : St) (k : Kind) (id ts : Nat) (hm : IMInv s.im)
+    (hb : s.im.cache.length ≤ max env.cfg.issueCacheSize 1) :
+    IMInv (report env s k id ts).im ∧ (report env s k id ts).im.cache.length ≤ max env.cfg.issueCacheSize 1 := by
+  unfold report
+  split
+  · exact ⟨hm, hb⟩
+  · next t _ => exact addIssue_inv s.im _ _ id ⟨t, ts⟩ hm hb
+
+theorem step_im_inv (env : Env) (s : St) (op : Op) (hm : IMInv s.im)
+    (hb : s.im.cache.length ≤ max env.cfg.issueCacheSize 1) :
+    IMInv (step env s op).im ∧ (step env s op).im.cache.length ≤ max env.cfg.issueCacheSize 1 := by
+  unfold step
+  split
+  · exact ⟨hm, hb⟩
+  · cases op with
+    | maintain now resp sc0 sc1 ord b => simp only [maintain_im]; exact ⟨hm, hb⟩
+    | report k id ts => exact report_im_inv env s k id ts hm hb
+    | deliver now sc => simp only [deliver_im]; exact ⟨hm, hb⟩
+    | send now => exact ⟨hm, hb⟩
+
+theorem run_im_inv (env : Env) (t0 : Nat) (ops : List Op) :
+    IMInv (run env t0 ops).im ∧ (run env t0 ops).im.cache.length ≤ max env.cfg.issueCacheSize 1 := by
+  unfold run
+  have : ∀ (s : St), IMInv s.im → s.im.cache.length ≤ max env.cfg.issueCacheSize 1 →
+      IMInv (ops.foldl (step env) s).im ∧
+      (ops.foldl (step env) s).im.cache.length ≤ max env.cfg.issueCacheSize 1 := by
+    induction ops with
+    | nil => intro s h1 h2; exact ⟨h1, h2⟩
+    | cons op ops ih =>
+      intro s h1 h2
+      have := step_im_inv env s op h1 h2
+      exact ih _ this.1 this.2
+  exact this _ ⟨by simp [init], by intro e he; simp [init] at he⟩ (by simp [init])
+
+end ScionVerif.PathMgr
+
+/-! # C06: structural invariant – the active path is a cached entry, fingerprints are distinct -/
+namespace ScionVerif.PathMgr
+open ScionVerif.Generated.PathMgr
+
+def fps (l : List Path) : List Nat := l.map (·.fp)
+
+structure WF (s : St) : Prop where
+  active_mem : ∀ a, s.active = some a → a ∈ s.cached
+  nodup : (fps s.cached).Nodup
+
+theorem insertBy_perm (lt : Path → Path → Bool) (x : Path) (l : List Path) :
+    (insertBy lt x l).Perm (x :: l) := by
+  induction l with
+  | nil => exact List.Perm.refl _
+  | cons y ys ih =>
+    unfold insertBy
+    split
+    · exact (List.Perm.cons y ih).trans (List.Perm.swap x y ys)
+    · exact List.Perm.refl _
+
+theorem sortBy_perm (lt : Path → Path → Bool) (l : List Path) : (sortBy lt l).Perm l := by
+  induction l with
+  | nil => exact List.Perm.refl _
+  | cons y ys ih =>
+    have : sortBy lt (y :: ys) = insertBy lt y (sortBy lt ys) := rfl
+    rw [this]
+    exact (insertBy_perm lt y _).trans (List.Perm.cons y ih)
+
+theorem rank_perm (sc : Nat → Int) (l : List Path) : (rank sc l).Perm l := sortBy_perm _ l
+theorem orderBy_perm (ord : List Nat) (l : List Path) : (orderBy ord l).Perm l := sortBy_perm _ l
+
+theorem nodup_fps_perm {l l' : List Path} (h : l.Perm l') : (fps l).Nodup ↔ (fps l').Nodup :=
+  (h.map _).nodup_iff
+
+theorem mem_fps {x : Path} {l : List Path} (h : x ∈ l) : x.fp ∈ fps l := List.mem_map.mpr ⟨x, h, rfl⟩
+
+/-- with distinct fingerprints, an entry is determined by its fingerprint -/
+theorem eq_of_fp_eq {l : List Path} (hn : (fps l).Nodup) {a b : Path} (ha : a ∈ l) (hb : b ∈ l)
+    (h : a.fp = b.fp) : a = b := by
+  induction l with
+  | nil => cases ha
+  | cons x xs ih =>
+    simp only [fps, List.map_cons, List.nodup_cons] at hn
+    cases ha with
+    | head =>
+      cases hb with
+      | head => rfl
+      | tail _ hb' => exact absurd (h ▸ mem_fps hb') hn.1
+    | tail _ ha' =>
+      cases hb with
+      | head => exact absurd (h ▸ mem_fps ha') hn.1
+      | tail _ hb' => exact ih hn.2 ha' hb'
+
+theorem refreshed_fp (fm : List Path) (c : Path) : (refreshed fm c).fp = c.fp := by
+  unfold refreshed
+  split
+  · next m hm => simpa using List.find?_some hm
+  · rfl
+
+theorem dedupLast_nodup (l : List Path) : (fps (dedupLast l)).Nodup := by
+  induction l with
+  | nil => simp [dedupLast, fps]
+  | cons p rest ih =>
+    unfold dedupLast
+    split
+    · exact ih
+    · next hany =>
+      simp only [fps, List.map_cons, List.nodup_cons]
+      refine ⟨?_, ih⟩
+      intro hm
+      rcases List.mem_map.mp hm with ⟨x, hx, hxf⟩
+      exact hany (List.any_eq_true.mpr ⟨x, mem_dedupLast hx, by simpa using hxf⟩)
+
+theorem retainLoop_sublist (now thr : Nat) (afp : Option Nat) :
+    ∀ (cs fm : List Path) (act : Option Path),
+      (fps (retainLoop now thr afp cs fm act).1).Sublist (fps cs) := by
+  intro cs
+  induction cs with
+  | nil => intro fm act; simp [retainLoop, fps]
+  | cons c cs ih =>
+    intro fm act
+    unfold retainLoop
+    simp only
+    split
+    · simp only [fps, List.map_cons, refreshed_fp]
+      exact List.Sublist.cons_cons _ (ih _ _)
+    · exact List.Sublist.cons _ (ih _ _)
+
+theorem retainLoop_rest (now thr : Nat) (afp : Option Nat) :
+    ∀ (cs fm : List Path) (act : Option Path),
+      (retainLoop now thr afp cs fm act).2.1.Sublist fm ∧
+      ∀ x ∈ (retainLoop now thr afp cs fm act).2.1, ∀ c ∈ cs, x.fp ≠ c.fp := by
+  intro cs
+  induction cs with
+  | nil => intro fm act; exact ⟨List.Sublist.refl _, fun _ _ c hc => absurd hc (by simp)⟩
+  | cons c cs ih =>
+    intro fm act
+    unfold retainLoop
+    simp only
+    have := ih (fm.filter (·.fp != c.fp))
+      (retainActive afp c (refreshed fm c) (checkExpiry (refreshed fm c) now thr != .expired) act)
+    refine ⟨this.1.trans List.filter_sublist, ?_⟩
+    intro x hx c' hc'
+    cases hc' with
+    | head =>
+      have := (List.mem_filter.mp (this.1.subset hx)).2
+      simpa using this
+    | tail _ h => exact this.2 x hx c' h
+
+theorem retainLoop_active (now thr : Nat) (afp : Option Nat) :
+    ∀ (cs fm : List Path) (act : Option Path) (a' : Path),
+      (retainLoop now thr afp cs fm act).2.2 = some a' →
+      a' ∈ (retainLoop now thr afp cs fm act).1 ∨ (act = some a' ∧ ∀ c ∈ cs, some c.fp ≠ afp) := by
+  intro cs
+  induction cs with
+  | nil => intro fm act a' h; exact Or.inr ⟨h, fun c hc => absurd hc (by simp)⟩
+  | cons c cs ih =>
+    intro fm act a' h
+    unfold retainLoop at h ⊢
+    simp only at h ⊢
+    rcases ih _ _ a' h with hin | ⟨hact, hno⟩
+    · left
+      split
+      · exact List.mem_cons_of_mem _ hin
+      · exact hin
+    · unfold retainActive at hact
+      split at hact
+      · next hc =>
+        split at hact
+        · next hk =>
+          left
+          cases hact
+          rw [if_pos hk]
+          exact List.mem_cons_self
+        · cases hact
+      · next hc =>
+        right
+        refine ⟨hact, ?_⟩
+        intro c' hc'
+        cases hc' with
+        | head => intro heq; exact hc (by simp [heq])
+        | tail _ h' => exact hno c' h'
+
+/-- every entry kept by the retain loop is not expired -/
+theorem retainLoop_kept_live (now thr : Nat) (afp : Option Nat) :
+    ∀ (cs fm : List Path) (act : Option Path),
+      ∀ x ∈ (retainLoop now thr afp cs fm act).1, checkExpiry x now thr ≠ .expired := by
+  intro cs
+  induction cs with
+  | nil => intro fm act x hx; simp [retainLoop] at hx
+  | cons c cs ih =>
+    intro fm act x hx
+    unfold retainLoop at hx
+    simp only at hx
+    split at hx
+    · next hk =>
+      cases hx with
+      | head => simpa using hk
+      | tail _ h => exact ih _ _ x h
+    · exact ih _ _ x hx
+
+/-- if every fetched path is live and none is left over as a new candidate, one of them refreshed a
+    cached entry, which is therefore kept -/
+theorem retainLoop_nonempty (now thr : Nat) (afp : Option Nat) :
+    ∀ (cs fm : List Path) (act : Option Path),
+      (∀ x ∈ fm, checkExpiry x now thr ≠ .expired) → fm ≠ [] →
+      (retainLoop now thr afp cs fm act).2.1 = [] → (retainLoop now thr afp cs fm act).1 ≠ [] := by
+  intro cs
+  induction cs with
+  | nil => intro fm act _ hne hr; simp [retainLoop] at hr; exact absurd hr hne
+  | cons c cs ih =>
+    intro fm act hl hne hr
+    unfold retainLoop at hr ⊢
+    simp only at hr ⊢
+    cases hf : fm.find? (·.fp == c.fp) with
+    | some m =>
+      have hm : refreshed fm c = m := by unfold refreshed; rw [hf]
+      have : (checkExpiry (refreshed fm c) now thr != ExpiryState.expired) = true := by
+        rw [hm]; simpa using hl m (List.mem_of_find?_eq_some hf)
+      rw [if_pos this]
+      simp
+    | none =>
+      have hall : fm.filter (·.fp != c.fp) = fm := by
+        apply List.filter_eq_self.mpr
+        intro x hx
+        have := List.find?_eq_none.mp hf x hx
+        simpa using this
+      have := ih (fm.filter (·.fp != c.fp)) _ (fun x hx => hl x (List.mem_filter.mp hx).1)
+        (by rw [hall]; exact hne) hr
+      split
+      · simp
+      · exact this
+
+theorem mergeTake_sublist (sc : Nat → Int) :
+    ∀ (b : Nat) (ex nw : List Path),
+      (mergeTake sc b ex nw).1.Sublist ex ∧ (mergeTake sc b ex nw).2.Sublist nw := by
+  intro b
+  induction b with
+  | zero => intro ex nw; simp only [mergeTake]; exact ⟨List.nil_sublist _, List.nil_sublist _⟩
+  | succ b ih =>
+    intro ex nw
+    cases ex with
+    | nil =>
+      cases nw with
+      | nil => simp only [mergeTake]; exact ⟨List.Sublist.refl _, List.Sublist.refl _⟩
+      | cons n ns =>
+        have := ih [] ns
+        simp only [mergeTake]
+        exact ⟨this.1, List.Sublist.cons_cons _ this.2⟩
+    | cons e es =>
+      cases nw with
+      | nil =>
+        have := ih es []
+        simp only [mergeTake]
+        exact ⟨List.Sublist.cons_cons _ this.1, this.2⟩
+      | cons n ns =>
+        simp only [mergeTake]
+        split
+        · have := ih es (n :: ns)
+          exact ⟨List.Sublist.cons_cons _ this.1, this.2⟩
+        · have := ih (e :: es) ns
+          exact ⟨this.1, List.Sublist.cons_cons _ this.2⟩
+
+/-- with a budget of at least one and something to choose from, the merge keeps something -/
+theorem mergeTake_nonempty (sc : Nat → Int) (b : Nat) (ex nw : List Path) (hb : 0 < b)
+    (h : ex ≠ [] ∨ nw ≠ []) : (mergeTake sc b ex nw).1 ++ (mergeTake sc b ex nw).2 ≠ [] := by
+  cases b with
+  | zero => exact absurd hb (Nat.lt_irrefl _)
+  | succ b =>
+    cases ex with
+    | nil =>
+      cases nw with
+      | nil => rcases h with h | h <;> exact absurd rfl h
+      | cons n ns => simp [mergeTake]
+    | cons e es =>
+      cases nw with
+      | nil => simp [mergeTake]
+      | cons n ns =>
+        simp only [mergeTake]
+        split <;> simp
+
+theorem swapFront_head {l : List Path} {idx : Nat} {x : Path} (h : l[idx]? = some x) :
+    ∃ rest, swapFront l idx = x :: rest := by
+  unfold swapFront
+  split
+  · simp at h
+  · next a t => simp at h; exact ⟨t, by rw [h]⟩
+  · next a t i =>
+    have : t[i]? = some x := by simpa using h
+    rw [this]
+    exact ⟨_, rfl⟩
+
+theorem nodup_append_fps {l₁ l₂ : List Path} (h₁ : (fps l₁).Nodup) (h₂ : (fps l₂).Nodup)
+    (hd : ∀ a ∈ l₁, ∀ b ∈ l₂, a.fp ≠ b.fp) : (fps (l₁ ++ l₂)).Nodup := by
+  simp only [fps, List.map_append]
+  refine List.nodup_append.mpr ⟨h₁, h₂, ?_⟩
+  intro x hx y hy hxy
+  rcases List.mem_map.mp hx with ⟨a, ha, hae⟩
+  rcases List.mem_map.mp hy with ⟨b, hb, hbe⟩
+  exact hd a ha b hb (by rw [hae, hbe, hxy])
+
+/-- the merge: distinct fingerprints are preserved, the active path stays cached, no assertion fires -/
+theorem mergeNew_wf (sc : Nat → Int) (ex nw : List Path) (act : Option Path) (t : Nat)
+    (hact : ∀ a, act = some a → a ∈ ex) (hex : (fps ex).Nodup) (hnw : (fps nw).Nodup)
+    (hd : ∀ a ∈ ex, ∀ b ∈ nw, a.fp ≠ b.fp) :
+    (fps (mergeNew sc ex nw (act.map (·.fp)) t).1).Nodup ∧
+    (∀ a, act = some a → a ∈ (mergeNew sc ex nw (act.map (·.fp)) t).1) ∧
+    (mergeNew sc ex nw (act.map (·.fp)) t).2 = false := by
+  have hsub := fun b ex' => mergeTake_sublist sc b ex' nw
+  cases act with
+  | none =>
+    simp only [Option.map_none, mergeNew]
+    refine ⟨?_, fun a h => (nomatch h), trivial⟩
+    have s := hsub t ex
+    exact nodup_append_fps ((s.1.map _).nodup hex) ((s.2.map _).nodup hnw)
+      (fun a ha b hb => hd a (s.1.subset ha) b (s.2.subset hb))
+  | some a =>
+    have ha := hact a rfl
+    simp only [Option.map_some, mergeNew]
+    cases hfi : ex.findIdx? (·.fp == a.fp) with
+    | none =>
+      have := List.findIdx?_eq_none_iff.mp hfi a ha
+      simp at this
+    | some idx =>
+      simp only
+      obtain ⟨hlt, hp, _⟩ := List.findIdx?_eq_some_iff_getElem.mp hfi
+      have hx : ex[idx]? = some ex[idx] := List.getElem?_eq_getElem hlt
+      have hxa : ex[idx] = a :=
+        eq_of_fp_eq hex (List.getElem_mem hlt) ha (by simpa using hp)
+      obtain ⟨rest, hrest⟩ := swapFront_head hx
+      rw [hrest, hxa]
+      simp only
+      have hperm : (a :: rest).Perm ex := by rw [← hxa, ← hrest]; exact swapFront_perm ex idx
+      have hn' : (fps (a :: rest)).Nodup := (nodup_fps_perm hperm).mpr hex
+      have s := hsub (t - 1) rest
+      refine ⟨?_, ?_, trivial⟩
+      · simp only [fps, List.map_cons, List.nodup_cons] at hn' ⊢
+        refine ⟨?_, ?_⟩
+        · intro hm
+          rcases List.mem_map.mp hm with ⟨x, hx', hxf⟩
+          rcases List.mem_append.mp hx' with h1 | h2
+          · exact hn'.1 (List.mem_map.mpr ⟨x, s.1.subset h1, hxf⟩)
+          · exact hd a ha x (s.2.subset h2) hxf.symm
+        · exact nodup_append_fps ((s.1.map _).nodup hn'.2) ((s.2.map _).nodup hnw)
+            (fun p hp q hq => hd p (hperm.mem_iff.mp (List.mem_cons_of_mem _ (s.1.subset hp))) q (s.2.subset hq))
+      · intro a' ha'; cases ha'; exact List.mem_cons_self
+
+end ScionVerif.PathMgr
+
+/-! # C06: no panic site is reached; a sender is not left without a path after a refetch -/
+namespace ScionVerif.PathMgr
+open ScionVerif.Generated.PathMgr
+
+def Live (now thr : Nat) (p : Path) : Prop := checkExpiry p now thr ≠ .expired
+
+theorem updateCache_wf (env : Env) (s : St) (fetched : List Path) (now : Nat) (sc1 : Nat → Int)
+    (ord : List Nat) (hw : WF s) :
+    WF (updateCache env s fetched now sc1 ord).1 ∧ (updateCache env s fetched now sc1 ord).1.bad = s.bad := by
+  have hsub := retainLoop_sublist now env.cfg.minExpiryThreshold (s.active.map (·.fp)) s.cached
+    (dedupLast fetched) s.active
+  have hrest := retainLoop_rest now env.cfg.minExpiryThreshold (s.active.map (·.fp)) s.cached
+    (dedupLast fetched) s.active
+  have hact : ∀ a', (retainLoop now env.cfg.minExpiryThreshold (s.active.map (·.fp)) s.cached
+      (dedupLast fetched) s.active).2.2 = some a' →
+      a' ∈ (retainLoop now env.cfg.minExpiryThreshold (s.active.map (·.fp)) s.cached
+        (dedupLast fetched) s.active).1 := by
+    intro a' h
+    rcases retainLoop_active _ _ _ _ _ _ a' h with hin | ⟨hs, hno⟩
+    · exact hin
+    · exact absurd (by rw [hs]; rfl) (hno a' (hw.active_mem a' hs))
+  have hkn : (fps (retainLoop now env.cfg.minExpiryThreshold (s.active.map (·.fp)) s.cached
+      (dedupLast fetched) s.active).1).Nodup := hsub.nodup hw.nodup
+  unfold updateCache
+  simp only
+  split
+  · exact ⟨⟨hact, hkn⟩, rfl⟩
+  · have hcn : (fps (rank sc1 (orderBy ord (retainLoop now env.cfg.minExpiryThreshold
+        (s.active.map (·.fp)) s.cached (dedupLast fetched) s.active).2.1))).Nodup := by
+      rw [nodup_fps_perm ((rank_perm _ _).trans (orderBy_perm _ _))]
+      exact (hrest.1.map _).nodup (dedupLast_nodup fetched)
+    have hd : ∀ a ∈ (retainLoop now env.cfg.minExpiryThreshold (s.active.map (·.fp)) s.cached
+        (dedupLast fetched) s.active).1,
+        ∀ b ∈ rank sc1 (orderBy ord (retainLoop now env.cfg.minExpiryThreshold
+          (s.active.map (·.fp)) s.cached (dedupLast fetched) s.active).2.1), a.fp ≠ b.fp := by
+      intro a ha b hb
+      have hb' := ((rank_perm _ _).trans (orderBy_perm _ _)).mem_iff.mp hb
+      rcases List.mem_map.mp (hsub.subset (mem_fps ha)) with ⟨c, hc, hcf⟩
+      intro h
+      exact hrest.2 b hb' c hc (by rw [hcf, h])
+    have hm := mergeNew_wf sc1 _ _ _ env.cfg.maxCached hact hkn hcn hd
+    refine ⟨⟨hm.2.1, hm.1⟩, ?_⟩
+    simp only [hm.2.2, Bool.or_false]
+
+theorem updateCache_live (env : Env) (s : St) (fetched : List Path) (now : Nat) (sc1 : Nat → Int)
+    (ord : List Nat) (hf : AllP (Live now env.cfg.minExpiryThreshold) fetched) :
+    AllP (Live now env.cfg.minExpiryThreshold) (updateCache env s fetched now sc1 ord).1.cached := by
+  have hk := retainLoop_kept_live now env.cfg.minExpiryThreshold (s.active.map (·.fp)) s.cached
+    (dedupLast fetched) s.active
+  have hrest := retainLoop_rest now env.cfg.minExpiryThreshold (s.active.map (·.fp)) s.cached
+    (dedupLast fetched) s.active
+  unfold updateCache
+  simp only
+  split
+  · exact hk
+  · apply mergeNew_P
+    · exact hk
+    · exact AllP_rank _ (AllP_orderBy _ (fun x hx => hf x (mem_dedupLast (hrest.1.subset hx))))
+
+theorem dedupLast_ne_nil {l : List Path} (h : l ≠ []) : dedupLast l ≠ [] := by
+  induction l with
+  | nil => exact absurd rfl h
+  | cons p rest ih =>
+    unfold dedupLast
+    split
+    · next hany =>
+      apply ih
+      intro hr; rw [hr] at hany; simp at hany
+    · simp
+
+theorem mergeNew_nonempty (sc : Nat → Int) (ex nw : List Path) (afp : Option Nat) (t : Nat)
+    (ht : 1 ≤ t) (hnw : nw ≠ []) : (mergeNew sc ex nw afp t).1 ≠ [] := by
+  unfold mergeNew
+  cases afp with
+  | none => exact mergeTake_nonempty sc _ _ _ ht (Or.inr hnw)
+  | some fp =>
+    simp only
+    cases hfi : ex.findIdx? (·.fp == fp) with
+    | none => exact mergeTake_nonempty sc _ _ _ ht (Or.inr hnw)
+    | some idx =>
+      simp only
+      have hlt := (List.findIdx?_eq_some_iff_getElem.mp hfi).1
+      have hlen := length_swapFront ex idx
+      cases hsw : swapFront ex idx with
+      | nil => rw [hsw] at hlen; simp at hlen; omega
+      | cons a rest => simp
+
+theorem updateCache_nonempty (env : Env) (s : St) (fetched : List Path) (now : Nat) (sc1 : Nat → Int)
+    (ord : List Nat) (hmc : 1 ≤ env.cfg.maxCached)
+    (hf : AllP (Live now env.cfg.minExpiryThreshold) fetched) (hne : fetched ≠ []) :
+    (updateCache env s fetched now sc1 ord).1.cached ≠ [] := by
+  unfold updateCache
+  simp only
+  split
+  · next hemp =>
+    apply retainLoop_nonempty
+    · exact fun x hx => hf x (mem_dedupLast hx)
+    · exact dedupLast_ne_nil hne
+    · simpa using hemp
+  · next hemp =>
+    apply mergeNew_nonempty _ _ _ _ _ hmc
+    intro h
+    have hl := congrArg List.length h
+    simp only [length_rank, orderBy, length_sortBy, List.length_nil] at hl
+    exact hemp (by simp [List.length_eq_zero_iff.mp hl])
+
+theorem minOpt_ne_none {l : List Nat} (h : l ≠ []) : minOpt l ≠ none := by
+  cases l with
+  | nil => exact absurd rfl h
+  | cons x xs => unfold minOpt; split <;> simp
+
+theorem live_expiry_some {now thr : Nat} {p : Path} (h : Live now thr p) : ∃ e, p.expiry = some e := by
+  cases he : p.expiry with
+  | some e => exact ⟨e, rfl⟩
+  | none =>
+    exfalso; apply h
+    unfold checkExpiry Path.expiryNs
+    rw [he]; simp
+
+theorem earliestExpiry_some {now thr : Nat} {l : List Path} (hne : l ≠ [])
+    (hl : AllP (Live now thr) l) : earliestExpiry l ≠ none := by
+  unfold earliestExpiry
+  apply minOpt_ne_none
+  cases l with
+  | nil => exact absurd rfl hne
+  | cons x xs =>
+    obtain ⟨e, he⟩ := live_expiry_some (hl x List.mem_cons_self)
+    simp [he]
+
+theorem activeEntry_some {s : St} (hw : WF s) {a : Path} (ha : s.active = some a) :
+    activeEntry s = some a := by
+  unfold activeEntry
+  rw [ha]
+  simp only
+  cases hf : s.cached.find? (·.fp == a.fp) with
+  | none =>
+    have := List.find?_eq_none.mp hf a (hw.active_mem a ha)
+    simp at this
+  | some x =>
+    have hx := List.mem_of_find?_eq_some hf
+    have hfp : x.fp = a.fp := by simpa using List.find?_some hf
+    rw [eq_of_fp_eq hw.nodup hx (hw.active_mem a ha) hfp]
+
+theorem baseDecision_noChange {active : Option Path} {now thr : Nat}
+    (h : baseDecision active now thr = .noChange) :
+    ∃ a, active = some a ∧ checkExpiry a now thr = .valid := by
+  unfold baseDecision at h
+  split at h
+  · cases h
+  · next a =>
+    split at h
+    · next hc => exact ⟨a, rfl, hc⟩
+    · split at h <;> cases h
+
+theorem expiryState_expired (e : ExpiryState) (h1 : e ≠ .valid) (h2 : e ≠ .near) : e = .expired := by
+  cases e
+  · exact absurd rfl h1
+  · exact absurd rfl h2
+  · rfl
+
+theorem baseDecision_force {active : Option Path} {now thr : Nat}
+    (h : baseDecision active now thr = .forceReplace) :
+    ∃ a, active = some a ∧ checkExpiry a now thr = .expired := by
+  unfold baseDecision at h
+  split at h
+  · cases h
+  · next a =>
+    split at h
+    · cases h
+    · next h1 =>
+      split at h
+      · cases h
+      · next h2 => exact ⟨a, rfl, expiryState_expired _ h1 h2⟩
+
+theorem swapCheck_decision (env : Env) (s : St) (sc : Nat → Int) (best : Option Path) :
+    (swapCheck env s sc best).1 = .noChange ∨ (swapCheck env s sc best).1 = .replace := by
+  unfold swapCheck
+  split
+  · simp only; split
+    · exact Or.inr rfl
+    · exact Or.inl rfl
+  · exact Or.inl rfl
+  · exact Or.inl rfl
+
+/-- what the decision says about the active path -/
+theorem decideActive_decision (env : Env) (s : St) (now : Nat) (sc : Nat → Int) :
+    ((decideActive env s now sc).1 = .noChange →
+      ∃ a, s.active = some a ∧ checkExpiry a now env.cfg.minExpiryThreshold = .valid) ∧
+    ((decideActive env s now sc).1 = .forceReplace →
+      ∃ a, s.active = some a ∧ checkExpiry a now env.cfg.minExpiryThreshold = .expired) := by
+  unfold decideActive
+  simp only
+  split
+  · next h0 =>
+    refine ⟨fun _ => baseDecision_noChange h0, ?_⟩
+    intro h
+    rcases swapCheck_decision env s sc (bestPath s.cached now env.cfg.minExpiryThreshold) with h' | h' <;>
+      rw [h'] at h <;> cases h
+  · next h0 =>
+    exact ⟨fun h => absurd h h0, fun h => baseDecision_force h⟩
+
+theorem decideActive_no_bad (env : Env) (s : St) (now : Nat) (sc : Nat → Int) (hw : WF s) :
+    (decideActive env s now sc).2.2 = false := by
+  unfold decideActive
+  simp only
+  split
+  · next h0 =>
+    obtain ⟨a, ha, _⟩ := baseDecision_noChange h0
+    show (swapCheck env s sc _).2 = false
+    unfold swapCheck
+    rw [activeEntry_some hw ha]
+    split <;> first | rfl | (next h => cases h)
+  · rfl
+
+theorem reevaluate_wf (env : Env) (s : St) (now : Nat) (sc : Nat → Int) (hw : WF s) :
+    WF (reevaluate env s now sc) ∧ (reevaluate env s now sc).bad = s.bad := by
+  have hw' : WF { s with cached := rank sc s.cached } :=
+    ⟨fun a ha => (rank_perm sc s.cached).mem_iff.mpr (hw.active_mem a ha),
+     (nodup_fps_perm (rank_perm sc s.cached)).mpr hw.nodup⟩
+  have hnb := decideActive_no_bad env { s with cached := rank sc s.cached } now sc hw'
+  have hbest : ∀ b, (decideActive env { s with cached := rank sc s.cached } now sc).2.1 = some b →
+      b ∈ rank sc s.cached := fun b hb => decideActive_best_mem env _ now sc hb
+  unfold reevaluate
+  simp only [hnb, Bool.or_false]
+  unfold applyDecision
+  simp only
+  split
+  · next b hb =>
+    have hbm : b ∈ rank sc s.cached := by
+      split at hb
+      · cases hb
+      · exact hbest b hb
+    split
+    · exact ⟨hw', rfl⟩
+    · exact ⟨⟨fun a ha => (by cases ha; exact hbm), hw'.nodup⟩, rfl⟩
+  · split
+    · exact ⟨⟨fun a ha => (nomatch ha), hw'.nodup⟩, rfl⟩
+    · exact ⟨hw', rfl⟩
+
+theorem fetchFiltered_live {env : Env} {now : Nat} {resp : Resp} {f : List Path}
+    (h : fetchFiltered env now resp = .ok f) :
+    AllP (Live now env.cfg.minExpiryThreshold) f ∧ f ≠ [] := by
+  refine ⟨fun p hp => (fetchFiltered_ok h p hp).2.2, ?_⟩
+  unfold fetchFiltered at h
+  split at h
+  · simp only at h
+    split at h
+    · cases h
+    · next hne => cases h; intro he; rw [he] at hne; simp at hne
+  · cases h
+  · cases h
+
+theorem fetchAndUpdate_wf (env : Env) (s : St) (now : Nat) (resp : Resp) (sc0 sc1 : Nat → Int)
+    (ord : List Nat) (b : Nat) (hmc : 1 ≤ env.cfg.maxCached) (hw : WF s) :
+    WF (fetchAndUpdate env s now resp sc0 sc1 ord b) ∧
+    (fetchAndUpdate env s now resp sc0 sc1 ord b).bad = s.bad := by
+  have hw0 : WF (noteDelivered s resp) := ⟨hw.active_mem, hw.nodup⟩
+  unfold fetchAndUpdate
+  simp only
+  split
+  · next f hok =>
+    have hu := updateCache_wf env (noteDelivered s resp) f now sc1 ord hw0
+    have hl := fetchFiltered_live hok
+    split
+    · next hnone =>
+      exact absurd hnone (earliestExpiry_some
+        (updateCache_nonempty env _ f now sc1 ord hmc hl.1 hl.2) (updateCache_live env _ f now sc1 ord hl.1))
+    · next ee _ =>
+      have hr := reevaluate_wf env (afterOk env.cfg (updateCache env (noteDelivered s resp) f now sc1 ord).1 now ee)
+        now (if (updateCache env (noteDelivered s resp) f now sc1 ord).2 then sc1 else sc0)
+        ⟨hu.1.active_mem, hu.1.nodup⟩
+      exact ⟨⟨hr.1.active_mem, hr.1.nodup⟩, by
+        show (reevaluate env _ now _).bad = s.bad
+        rw [hr.2]; exact hu.2⟩
+  · next e _ =>
+    have hu := updateCache_wf env (noteDelivered s resp) [] now sc1 ord hw0
+    have hr := reevaluate_wf env (afterErr env.cfg (updateCache env (noteDelivered s resp) [] now sc1 ord).1
+      s.failed now b e) now sc0 ⟨hu.1.active_mem, hu.1.nodup⟩
+    exact ⟨⟨hr.1.active_mem, hr.1.nodup⟩, by
+      show (reevaluate env _ now _).bad = s.bad
+      rw [hr.2]; exact hu.2⟩
+
+end ScionVerif.PathMgr
+
+/-! # C06: invariants over histories; a sender is not left without a path -/
+namespace ScionVerif.PathMgr
+open ScionVerif.Generated.PathMgr
+
+theorem WF_of_eq {s s' : St} (hc : s'.cached = s.cached) (ha : s'.active = s.active) (hw : WF s) :
+    WF s' := ⟨fun a h => by rw [hc]; exact hw.active_mem a (by rw [← ha]; exact h), by rw [hc]; exact hw.nodup⟩
+
+theorem idleCheck_wf (env : Env) (s : St) (now : Nat) (hw : WF s) :
+    WF (idleCheck env s now).1 ∧ (idleCheck env s now).1.bad = s.bad := by
+  unfold idleCheck; split
+  · exact ⟨⟨hw.active_mem, hw.nodup⟩, rfl⟩
+  · exact ⟨hw, rfl⟩
+
+theorem maintain_wf (env : Env) (s : St) (now : Nat) (resp : Resp) (sc0 sc1 : Nat → Int)
+    (ord : List Nat) (b : Nat) (hmc : 1 ≤ env.cfg.maxCached) (hw : WF s) :
+    WF (maintain env s now resp sc0 sc1 ord b) ∧ (maintain env s now resp sc0 sc1 ord b).bad = s.bad := by
+  unfold maintain refetchIfDue
+  have hi := idleCheck_wf env s now hw
+  split
+  · split
+    · exact ⟨⟨hi.1.active_mem, hi.1.nodup⟩, hi.2⟩
+    · split
+      · have := fetchAndUpdate_wf env (idleCheck env s now).1 now resp sc0 sc1 ord b hmc hi.1
+        exact ⟨this.1, by rw [this.2, hi.2]⟩
+      · exact hi
+  · split
+    · exact fetchAndUpdate_wf env s now resp sc0 sc1 ord b hmc hw
+    · exact ⟨hw, rfl⟩
+
+theorem deliver_wf (env : Env) (s : St) (now : Nat) (sc : Nat → Int) (hw : WF s) :
+    WF (deliver env s now sc) ∧ (deliver env s now sc).bad = s.bad := by
+  unfold deliver
+  split
+  · exact ⟨hw, rfl⟩
+  · split
+    · exact ⟨⟨hw.active_mem, hw.nodup⟩, rfl⟩
+    · simp only
+      split
+      · have := reevaluate_wf env { s with pending := [] } now sc ⟨hw.active_mem, hw.nodup⟩
+        exact this
+      · exact ⟨⟨hw.active_mem, hw.nodup⟩, rfl⟩
+
+theorem report_wf (env : Env) (s : St) (k : Kind) (id ts : Nat) (hw : WF s) :
+    WF (report env s k id ts) ∧ (report env s k id ts).bad = s.bad := by
+  unfold report
+  split
+  · exact ⟨hw, rfl⟩
+  · exact ⟨⟨hw.active_mem, hw.nodup⟩, rfl⟩
+
+theorem step_wf (env : Env) (s : St) (op : Op) (hmc : 1 ≤ env.cfg.maxCached) (hw : WF s) :
+    WF (step env s op) ∧ (step env s op).bad = s.bad := by
+  unfold step
+  split
+  · exact ⟨hw, rfl⟩
+  · cases op with
+    | maintain now resp sc0 sc1 ord b => exact maintain_wf env s now resp sc0 sc1 ord b hmc hw
+    | report k id ts => exact report_wf env s k id ts hw
+    | deliver now sc => exact deliver_wf env s now sc hw
+    | send now => exact ⟨⟨hw.active_mem, hw.nodup⟩, rfl⟩
+
+theorem run_wf (env : Env) (t0 : Nat) (ops : List Op) (hmc : 1 ≤ env.cfg.maxCached) :
+    WF (run env t0 ops) ∧ (run env t0 ops).bad = false := by
+  unfold run
+  have : ∀ (s : St), WF s → s.bad = false →
+      WF (ops.foldl (step env) s) ∧ (ops.foldl (step env) s).bad = false := by
+    induction ops with
+    | nil => intro s h1 h2; exact ⟨h1, h2⟩
+    | cons op ops ih =>
+      intro s h1 h2
+      have := step_wf env s op hmc h1
+      exact ih _ this.1 (by rw [this.2]; exact h2)
+  exact this _ ⟨fun a h => by simp [init] at h, by simp [init, fps]⟩ (by simp [init])
+
+/-! ## a sender is not left without a path -/
+
+theorem live_not_expiredAt {now thr : Nat} {p : Path} (h : Live now thr p) : p.expiredAt now = false := by
+  unfold Live checkExpiry at h
+  unfold Path.expiredAt
+  cases he : p.expiry with
+  | none => rfl
+  | some e =>
+    simp only [decide_eq_false_iff_not]
+    intro hle
+    apply h
+    have : e * NS ≤ now := (Nat.le_div_iff_mul_le (by decide)).mp hle
+    simp only [Path.expiryNs, he, Option.getD_some]
+    rw [if_pos this]
+
+theorem valid_live {now thr : Nat} {p : Path} (h : checkExpiry p now thr = .valid) : Live now thr p := by
+  unfold Live; rw [h]; decide
+
+theorem bestPath_some {cached : List Path} {now thr : Nat}
+    (h : ∃ e ∈ cached, checkExpiry e now thr = .valid) :
+    ∃ b, bestPath cached now thr = some b ∧ b ∈ cached ∧ checkExpiry b now thr = .valid := by
+  obtain ⟨e, he, hv⟩ := h
+  unfold bestPath
+  cases hf : cached.find? (fun p => checkExpiry p now thr == .valid) with
+  | none =>
+    have := List.find?_eq_none.mp hf e he
+    simp [hv] at this
+  | some b =>
+    exact ⟨b, rfl, List.mem_of_find?_eq_some hf, by simpa using List.find?_some hf⟩
+
+
+theorem applyDecision_active (s : St) (d : Decision) (best : Option Path) :
+    (applyDecision s d best).active =
+      (match (if s.active.map (·.fp) == best.map (·.fp) then none else best) with
+       | some b => if d = .noChange then s.active else some b
+       | none => if d = .forceReplace then none else s.active) := by
+  unfold applyDecision
+  simp only
+  generalize (if s.active.map (·.fp) == best.map (·.fp) then none else best) = bb
+  cases bb with
+  | none => simp only []; split <;> rfl
+  | some b => simp only []; split <;> rfl
+
+/-- after re-evaluation, if some cached path is valid (not near expiry) the active slot holds a path
+    that is not expired -/
+theorem reevaluate_has_path (env : Env) (s : St) (now : Nat) (sc : Nat → Int) (hw : WF s)
+    (hv : ∃ e ∈ s.cached, checkExpiry e now env.cfg.minExpiryThreshold = .valid) :
+    ∃ p, (reevaluate env s now sc).active = some p ∧ Live now env.cfg.minExpiryThreshold p := by
+  have hw' : WF { s with cached := rank sc s.cached } :=
+    ⟨fun a ha => (rank_perm sc s.cached).mem_iff.mpr (hw.active_mem a ha),
+     (nodup_fps_perm (rank_perm sc s.cached)).mpr hw.nodup⟩
+  have hv' : ∃ e ∈ rank sc s.cached, checkExpiry e now env.cfg.minExpiryThreshold = .valid := by
+    obtain ⟨e, he, h⟩ := hv; exact ⟨e, (mem_rank sc e _).mpr he, h⟩
+  obtain ⟨b, hb, hbm, hbv⟩ := bestPath_some hv'
+  have hbest : (decideActive env { s with cached := rank sc s.cached } now sc).2.1 = some b := by
+    rw [decideActive_best]; exact hb
+  have hdec := decideActive_decision env { s with cached := rank sc s.cached } now sc
+  unfold reevaluate
+  simp only
+  rw [applyDecision_active, hbest]
+  simp only
+  by_cases hfp : (s.active.map (·.fp) == (some b).map (·.fp)) = true
+  · -- the best path is the active path
+    rw [if_pos hfp]
+    simp only
+    have hex : ∃ a, s.active = some a := by
+      cases h : s.active with
+      | none => rw [h] at hfp; simp at hfp
+      | some a => exact ⟨a, rfl⟩
+    obtain ⟨a, ha⟩ := hex
+    have hab : a = b := by
+      have hfp' := hfp
+      rw [ha] at hfp'
+      exact eq_of_fp_eq hw'.nodup (hw'.active_mem a ha) hbm (by simpa using hfp')
+    split
+    · next hf =>
+      obtain ⟨a', ha', hex⟩ := hdec.2 hf
+      have : a' = a := by
+        have h2 : s.active = some a' := ha'
+        rw [ha] at h2; cases h2; rfl
+      rw [this, hab, hbv] at hex; cases hex
+    · exact ⟨a, ha, hab ▸ valid_live hbv⟩
+  · rw [if_neg hfp]
+    simp only
+    split
+    · next hn =>
+      obtain ⟨a', ha', hva⟩ := hdec.1 hn
+      exact ⟨a', ha', valid_live hva⟩
+    · exact ⟨b, rfl, valid_live hbv⟩
+
+end ScionVerif.PathMgr
+
+namespace ScionVerif.PathMgr
+open ScionVerif.Generated.PathMgr
+
+theorem addIssue_fifo_le (m : IssueMgr) (maxE win id : Nat) (mk : Marker) (hm : IMInv m)
+    (hb : m.cache.length ≤ max maxE 1) :
+    (m.addIssue maxE win id mk).1.fifo.length ≤ m.fifo.length + 1 := by
+  unfold IssueMgr.addIssue
+  split
+  · exact Nat.le_succ _
+  · have he := evictIfFull_spec m maxE hm hb
+    show ((m.evictIfFull maxE).fifo ++ [(id, mk.ts)]).length ≤ m.fifo.length + 1
+    simp only [List.length_append, List.length_cons, List.length_nil]
+    omega
+
+theorem fetchAndUpdate_has_path (env : Env) (s : St) (now : Nat) (resp : Resp) (sc0 sc1 : Nat → Int)
+    (ord : List Nat) (b : Nat) (hmc : 1 ≤ env.cfg.maxCached) (hw : WF s)
+    (hv : ∃ e ∈ (fetchAndUpdate env s now resp sc0 sc1 ord b).cached,
+      checkExpiry e now env.cfg.minExpiryThreshold = .valid) :
+    ∃ p, (fetchAndUpdate env s now resp sc0 sc1 ord b).active = some p ∧
+      Live now env.cfg.minExpiryThreshold p := by
+  have hw0 : WF (noteDelivered s resp) := ⟨hw.active_mem, hw.nodup⟩
+  unfold fetchAndUpdate at hv ⊢
+  simp only at hv ⊢
+  split at hv
+  · next f hok =>
+    have hu := updateCache_wf env (noteDelivered s resp) f now sc1 ord hw0
+    have hl := fetchFiltered_live hok
+    split at hv
+    · next hnone =>
+      exact absurd hnone (earliestExpiry_some
+        (updateCache_nonempty env _ f now sc1 ord hmc hl.1 hl.2) (updateCache_live env _ f now sc1 ord hl.1))
+    · next ee hee =>
+      obtain ⟨e, he, hev⟩ := hv
+      have he' : e ∈ (afterOk env.cfg (updateCache env (noteDelivered s resp) f now sc1 ord).1 now ee).cached := by
+        have : e ∈ (reevaluate env (afterOk env.cfg (updateCache env (noteDelivered s resp) f now sc1 ord).1 now ee)
+          now (if (updateCache env (noteDelivered s resp) f now sc1 ord).2 then sc1 else sc0)).cached := he
+        rw [reevaluate_cached] at this
+        exact (mem_rank _ e _).mp this
+      exact reevaluate_has_path env _ now _ ⟨hu.1.active_mem, hu.1.nodup⟩ ⟨e, he', hev⟩
+  · next er _ =>
+    have hu := updateCache_wf env (noteDelivered s resp) [] now sc1 ord hw0
+    obtain ⟨e, he, hev⟩ := hv
+    have he' : e ∈ (afterErr env.cfg (updateCache env (noteDelivered s resp) [] now sc1 ord).1 s.failed now b er).cached := by
+      have : e ∈ (reevaluate env (afterErr env.cfg (updateCache env (noteDelivered s resp) [] now sc1 ord).1
+        s.failed now b er) now sc0).cached := he
+      rw [reevaluate_cached] at this
+      exact (mem_rank _ e _).mp this
+    exact reevaluate_has_path env _ now _ ⟨hu.1.active_mem, hu.1.nodup⟩ ⟨e, he', hev⟩
 
 end ScionVerif.PathMgr
